@@ -3,10 +3,10 @@ import random
 
 from .model import RANKS, is_halfop
 
-NICKS = ["al", "bo", "cy", "di", "ed", "fy", "root", "adm", "Al"]
-USERS = {"Al": "alcap", "Root": "rtcap", "al": "al", "bo": "bob", "cy": "cy", "di": "cy", "ed": "ed", "fy": "fy", "root": "rt",
+NICKS = ["al", "bo", "cy", "di", "ed", "fy", "root", "adm", "Al", "zoé"]
+USERS = {"zoé": "zoe", "Al": "alcap", "Root": "rtcap", "al": "al", "bo": "bob", "cy": "cy", "di": "cy", "ed": "ed", "fy": "fy", "root": "rt",
          "adm": "adm"}
-CHANS = ["#x", "#y", "#z", "&w"]
+CHANS = ["#x", "#y", "#z", "&w", "#café"]
 KEYS = ["k1", "key2", "x"]
 OPER_PW = {"root": "rootpw", "adm": "admpw", "far": "farpw"}
 OPER_MASK = {"root": None, "adm": "*!*@127.0.0.1", "far": "*!*@10.*"}
@@ -449,7 +449,7 @@ class Gen:
             mask = self.some_nick()
         else:
             mask = r.choice(["*", "a*", "*o", "?o", "*!*@127.0.0.1", "*!~b*@*", "R?*", "*d*", "??",
-                             "*!*@10.*", "r?ot", "*zzzzzzzzzzzzzzzzzzzzzzzzzzzzzzzzzzzzzzzzzz"
+                             "*!*@10.*", "r?ot", "zo?", "?o?", "z?é", "*é", "zo?!*@*", "*zzzzzzzzzzzzzzzzzzzzzzzzzzzzzzzzzzzzzzzzzz"
                              if self.hostile_masks else "*z"])
         return ("act", r.choice(live), {"verb": "WHO", "mask": mask})
 
@@ -462,7 +462,7 @@ class Gen:
             if r.random() < 0.7:
                 masks.append(self.some_nick())
             else:
-                masks.append(r.choice(["*", "a*", "?o", "*o*", "r??t", "b?", "*y",
+                masks.append(r.choice(["*", "a*", "?o", "*o*", "r??t", "b?", "*y", "zo?", "??é",
                                        "*zzzzzzzzzzzzzzzzzzzzzzzzzzzzzzzzzzzz" if self.hostile_masks else "*q"]))
         return ("act", r.choice(live), {"verb": "WHOIS", "masks": masks})
 
